@@ -88,6 +88,9 @@ inductive Op where
   -- extension round 3: parse results / options results moved through the combinators
   | parseAlt | parseOpt | parseConvert | parseAsStruct | parseSeparator | parseList | parseRepPlus
   | optsArgument | optsOptional | optsProduct | optsMany | optsSum
+  -- extension round 4: the same object twice, other container kinds, swap, record::set
+  | treeSwap | treeSortPred | joinSelf | arrJoinSelf | tupConcatSelf | optCombineSelf
+  | algMapList | algMapArr | algMapTup | algLoopBreakTuple | recSet
   deriving DecidableEq, Repr, Inhabited
 
 /-- Arguments (value category, element identities in container order) and the operation's
@@ -358,6 +361,20 @@ def prog (o : Op) (inp : Input) : List Instr :=
   | .parseSeparator | .parseList | .parseRepPlus | .optsMany => freshRange par0 .res
   -- options sum (left = a product of two arguments | right = one argument): par0 = 0: two arguments are given, the left parser
   -- takes them; 1: one argument is given, the left parser fails after reading it (its value is destroyed), the right one reads it again
+  -- tree::swap: `std::swap` of the two root values (three moves), the child lists change owner (argument 3 is the empty scratch
+  -- list that stands for "at the same time")
+  | .treeSwap => [.swap 0 0 1, .steal 1 (.arg 3), .steal 2 (.arg 1), .steal 3 (.arg 2)]
+  | .treeSortPred => readAll 0 (n 0)
+  -- the same lvalue object as both arguments: join(a, a), array::join(a, a), tuple::concat(t, t): every element is copied twice
+  | .joinSelf | .arrJoinSelf | .tupConcatSelf => xferAll 0 (n 0) .copy .res ++ xferAll 0 (n 0) .copy .res
+  -- optional::combine(o, o, f): the function reads its second argument and derives from the first - the same object
+  | .optCombineSelf => if n 0 = 0 then [] else [.read 0 0, .derive 0 0 1 .res]
+  -- algorithm::map with a list source and a deque target (no reserve), array -> array (map_array.hpp), tuple -> tuple (map_tuple.hpp)
+  | .algMapList | .algMapArr | .algMapTup => callAll (rv 0) 0 (n 0) .res
+  -- algorithm::loop_break over a tuple (loop_break_tuple.hpp): the body reads the elements and breaks at element par0
+  | .algLoopBreakTuple => readAll 0 (min (n 0) (par0 + 1))
+  -- record::set<Label>(record, value): element par0 is overwritten
+  | .recSet => [.pop 0 par0 .drop, .xfer 1 0 (fwd (rv 1)) (.arg 0)]
   | .optsSum => if par0 = 0 then [.fresh 1000 .res, .fresh 1001 .res] else [.fresh 1000 .drop, .fresh 1000 .res]
 
 def jn (b : Bool) : String := if b then "J" else "N"
@@ -425,6 +442,7 @@ def tag (o : Op) (inp : Input) : String :=
   | .parseSeparator | .parseList | .optsMany => "S"
   | .parseRepPlus => sf (decide (1 ≤ inp.par.headD 0))
   | .optsSum => if inp.par.headD 0 == 0 then "L" else "R"
+  | .optCombineSelf => jn (inp.size 0 == 1)
   | _ => "-"
 
 /-! ## well-formed inputs -/
@@ -589,6 +607,16 @@ def shapeOk (o : Op) (inp : Input) : Bool :=
   | .parseOpt | .parseConvert | .optsArgument | .optsOptional | .optsSum => inp.args.length == 0 && inp.par.length == 1 && inp.par.headD 0 ≤ 1
   | .parseAlt | .parseAsStruct | .optsProduct => inp.args.length == 0 && inp.par.length == 1 && inp.par.headD 0 ≤ 2
   | .parseSeparator | .parseList | .parseRepPlus | .optsMany => inp.args.length == 0 && inp.par.length == 1
+  | .treeSwap =>
+    inp.args.length == 4 && catIn inp 0 [.io] && catIn inp 1 [.io] && catIn inp 2 [.io] && catIn inp 3 [.io] && n 0 == 2 && n 3 == 0 &&
+      inp.par.isEmpty
+  | .treeSortPred => inp.args.length == 1 && catIn inp 0 [.io] && 1 ≤ n 0 && inp.par.isEmpty
+  | .joinSelf | .arrJoinSelf | .tupConcatSelf => inp.args.length == 1 && catIn inp 0 [.lv, .cr] && inp.par.isEmpty
+  | .optCombineSelf => inp.args.length == 1 && catIn inp 0 [.lv, .cr] && n 0 ≤ 1 && inp.par.isEmpty
+  | .algMapList | .algMapArr | .algMapTup => inp.args.length == 1 && catIn inp 0 anyCat && inp.par.isEmpty
+  | .algLoopBreakTuple => inp.args.length == 1 && catIn inp 0 anyCat && inp.par.length == 1 && inp.par.headD 0 ≤ n 0
+  | .recSet =>
+    inp.args.length == 2 && catIn inp 0 [.io] && catIn inp 1 anyCat && n 1 == 1 && inp.par.length == 1 && inp.par.headD 0 < n 0
 
 def wf (o : Op) (inp : Input) : Bool := idsOk inp && shapeOk o inp
 
@@ -605,6 +633,7 @@ def keeps (o : Op) (inp : Input) (a : Nat) : Bool :=
   | .tupInvoke | .tupFromArray | .tupMake2 | .arrMake2 | .recCtor2 | .arrApply2
   | .optMake | .optCtor | .optToException | .optMaybe | .optMaybeVoid
   | .eithMakeSuccess | .eithMakeFailure | .eithCtor | .eithToException | .eithErrorFromOptional | .varCtor
+  | .algMapList | .algMapArr | .algMapTup
   | .varApply2 | .treeCtorTree | .treeCtorChildren | .gridCtorRows2 | .gridStaticRow2 | .gridCtorGrid => true
   | .optApply2 | .optMaybeMulti2 | .optMaybeVoidMulti2 => inp.size 0 == 1 && inp.size 1 == 1
   | .gridApply2 => inp.par.headD 0 == (inp.par.drop 2).headD 0 && (inp.par.drop 1).headD 0 == (inp.par.drop 3).headD 0
@@ -619,7 +648,7 @@ first success in `first_success`, a half-parsed sequence, the emptied `move_rang
 def drops : Op → Bool
   | .eithApply2 | .eithFirstSuccess | .parseSequence | .moveRangeMap | .optCombine | .optAssign
   | .algMapIteration | .algMapIterationSecond | .algSeqIteration | .treeAssign | .treeSetValue | .treeErase | .treeEraseRange | .treeClear
-  | .gridAssign | .gridFill | .parseAsStruct | .optsProduct | .optsSum => true
+  | .gridAssign | .gridFill | .parseAsStruct | .optsProduct | .optsSum | .recSet => true
   | _ => false
 
 /-! ## the programs of three repaired defects, kept for the refuted examples in Props/C05.lean -/
@@ -657,7 +686,9 @@ def Op.all : List Op :=
    .treePushFrontTree, .treeInsertTree, .treePopBack, .treePopFront, .treeErase, .treeEraseRange, .treeClear, .treeSort,
    .gridCtorFn, .gridCtorValue, .gridCtorRows2, .gridStaticRow2, .gridCtorGrid, .gridAssign, .gridSelfAssign, .gridFill,
    .parseAlt, .parseOpt, .parseConvert, .parseAsStruct, .parseSeparator, .parseList, .parseRepPlus,
-   .optsArgument, .optsOptional, .optsProduct, .optsMany, .optsSum]
+   .optsArgument, .optsOptional, .optsProduct, .optsMany, .optsSum,
+   .treeSwap, .treeSortPred, .joinSelf, .arrJoinSelf, .tupConcatSelf, .optCombineSelf, .algMapList, .algMapArr, .algMapTup,
+   .algLoopBreakTuple, .recSet]
 
 def Op.name : Op → String
   | .algMap => "algmap" | .fold => "fold" | .foldBreak => "foldbrk" | .mapConcat => "mapcat" | .mapOptional => "mapopt"
@@ -704,5 +735,8 @@ def Op.name : Op → String
   | .parseSeparator => "parsesep" | .parseList => "parselist" | .parseRepPlus => "parserepplus"
   | .optsArgument => "optsarg" | .optsOptional => "optsoptional" | .optsProduct => "optsproduct" | .optsMany => "optsmany"
   | .optsSum => "optssum"
+  | .treeSwap => "treeswap" | .treeSortPred => "treesortpred" | .joinSelf => "joinself" | .arrJoinSelf => "arrjoinself"
+  | .tupConcatSelf => "tupconcatself" | .optCombineSelf => "optcombineself" | .algMapList => "algmaplist" | .algMapArr => "algmaparr"
+  | .algMapTup => "algmaptup" | .algLoopBreakTuple => "algloopbrktup" | .recSet => "recset"
 
 end Fcppt.C05
